@@ -471,6 +471,18 @@ func (x *Exec) applyContract(p *Path, ct *Contract, vars map[string]SV, results 
 		x.oblig(p, tag+"/requires/"+rq.Label, s, x.cur.ct.Props, x.pos(in))
 		p.assume(s)
 	}
+	// recursion: the callee's variant must be smaller than the caller's (both declare `decreases`)
+	if ct.Decreases != nil && x.cur.ct.Decreases != nil && ct.Kind != "extern" {
+		cv, err1 := env.evalSV(ct.Decreases.E)
+		cenv := x.specEnv(p)
+		cenv.H = p.H0
+		mv, err2 := cenv.evalSV(x.cur.ct.Decreases.E)
+		if err1 == nil && err2 == nil && cv.K == KTerm && mv.K == KTerm {
+			x.oblig(p, tag+"/decreases", fmt.Sprintf("(and (<= 0 %s) (< %s %s))", cv.T, cv.T, mv.T), x.cur.ct.Props, x.pos(in))
+		} else {
+			x.errorf("%s: %s decreases: %v %v", x.cur.ct.Func, site, err1, err2)
+		}
+	}
 	// callee frame within caller frame
 	var cfs frameSet
 	for _, as := range ct.Assigns {
